@@ -165,6 +165,8 @@ pub fn units(prop: &str, tier: Tier) -> Option<Vec<Unit>> {
                 class("k01-str", &k, pick(4, 5)).len(pick(4, 5)).alarm(alarm).unit(),
                 class("k01-str-multibyte", &k, pick(3, 4)).kind(KindId::StrMb).alarm(alarm).unit(),
                 class("k01-slice", &k, pick(3, 4)).kind(KindId::Slice).alarm(alarm).unit(),
+                // the same grammars with every combinator value used through its own Clone impl (original dropped)
+                class("k01-through-clone", &k, pick(3, 4)).alarm(alarm).clone_mode().unit(),
             ];
             if !q {
                 v.push(class("kcore-deep", &en::k_core(), 6).alarm(alarm).unit());
@@ -204,6 +206,7 @@ pub fn units(prop: &str, tier: Tier) -> Option<Vec<Unit>> {
                 class("kext-contract", &en::k_ext(), pick(3, 4)).len(pick(4, 5)).alarm(alarm).lazy().unit(),
                 class("kext-contract-emptyerr", &en::k_ext(), pick(3, 4)).cfg(CfgId::Empty).probes(NOPROBE).alarm(alarm).lazy().unit(),
                 class("k01-contract-cheap", &en::k01(), pick(3, 3)).cfg(CfgId::Cheap).probes(NOPROBE).alarm(alarm).lazy().unit(),
+                class("kext-contract-through-clone", &en::k_ext(), 3).alarm(alarm).lazy().clone_mode().unit(),
                 e1("k02-contract", "repeated()/separated_by() templates".into(), {
                     let mut v = en::k02_rep(false);
                     v.extend(en::k02_sep(false));
@@ -228,6 +231,7 @@ pub fn units(prop: &str, tier: Tier) -> Option<Vec<Unit>> {
             vec![
                 class("k04-check-vs-parse", &k, pick(3, 4)).probes(NOPROBE).alarm(CHK).unit(),
                 class("k01-check-vs-parse", &en::k01(), pick(3, 4)).probes(NOPROBE).alarm(CHK).unit(),
+                class("k04-check-vs-parse-through-clone", &k, 3).probes(NOPROBE).alarm(CHK).clone_mode().unit(),
                 class("kstate-check-vs-parse", &en::k_state(), pick(3, 3)).cfg(CfgId::RichSt).probes(NOPROBE).alarm(CHK).unit(),
                 class("kctx-check-vs-parse", &en::k_ctx(), pick(3, 4)).cfg(CfgId::RichCx).probes(NOPROBE).alarm(CHK).unit(),
                 e1("k02-check-vs-parse", "repeated()/separated_by() templates".into(), {
@@ -265,6 +269,7 @@ pub fn units(prop: &str, tier: Tier) -> Option<Vec<Unit>> {
                 class("kext-emissions-state", &en::k_ext(), pick(4, 4)).len(pick(4, 5)).cfg(CfgId::RichSt).probes(STATE).alarm(alarm).unit(),
                 class("kstate-emissions-state", &en::k_state(), pick(3, 4)).cfg(CfgId::RichSt).probes(STATE).alarm(alarm).unit(),
                 class("kemit-deep", &en::k_emit(), pick(5, 6)).alpha(&['a', 'b'], 4).cfg(CfgId::RichSt).probes(STATE).alarm(alarm).unit(),
+                class("kemit-through-clone", &en::k_emit(), pick(4, 5)).alpha(&['a', 'b'], 4).cfg(CfgId::RichSt).probes(STATE).alarm(alarm).clone_mode().unit(),
                 e1("k02-emissions", "repeated()/separated_by() templates with emitting items and emitting separators (every bounds / flags / sink setting), each followed by a rest capture".into(), {
                     let mut v = en::k02_rep(false);
                     v.extend(en::k02_sep(false));
@@ -285,6 +290,7 @@ pub fn units(prop: &str, tier: Tier) -> Option<Vec<Unit>> {
                 v.push(class(&format!("kext-{n}"), &k, pick(3, 4)).cfg(c).probes(NOPROBE).alarm(alarm).unit());
             }
             v.push(class("kcore-rich", &en::k_core(), pick(4, 5)).alarm(alarm).unit());
+            v.push(class("kext-rich-through-clone", &k, 3).probes(NOPROBE).alarm(alarm).clone_mode().unit());
             v.push(class("k01-rich", &en::k01(), pick(3, 4)).alarm(alarm).unit());
             v.push(
                 e1("k02-rich", "repeated()/separated_by() templates".into(), {
@@ -304,6 +310,7 @@ pub fn units(prop: &str, tier: Tier) -> Option<Vec<Unit>> {
                 class("k07-str", &en::k07(true), pick(3, 4)).alarm(alarm).unit(),
                 class("k07-str-multibyte", &en::k07(true), pick(3, 4)).kind(KindId::StrMb).alarm(alarm).unit(),
                 class("k07-slice", &en::k07(true), pick(3, 3)).kind(KindId::Slice).alarm(alarm).unit(),
+                class("k07-str-through-clone", &en::k07(true), 3).alarm(alarm).clone_mode().unit(),
                 class("k07-stream", &en::k07(false), pick(3, 3)).kind(KindId::Stream).alarm(alarm).unit(),
                 class("k07-mapped-gapped", &en::k07(false), pick(3, 4)).kind(KindId::MappedGapped).alarm(alarm).unit(),
                 e1("k02-spans", "repeated()/separated_by() templates (fold callbacks with spans, rest slices)".into(), {
@@ -327,6 +334,7 @@ pub fn units(prop: &str, tier: Tier) -> Option<Vec<Unit>> {
             vec![
                 class("krecfail-deep", &en::k_recfail(), pick(7, 8)).alpha(&['a', 'b'], pick(4, 5)).alarm(alarm).unit(),
                 class("kext-recovery", &en::k_ext(), pick(4, 4)).len(pick(4, 5)).alarm(alarm).unit(),
+                class("kext-recovery-through-clone", &en::k_ext(), pick(3, 4)).alarm(alarm).clone_mode().unit(),
                 class("knd-nested-delimiters", &en::k_nd(), pick(3, 4)).alpha(&BRACKETS, pick(4, 5)).alarm(alarm).unit(),
                 e1("kext-statically-typed", "statically typed parsers: extended-class grammars (recovery, validate, labels, map_err, separators) with 2 nodes and a stride of the 3-node ones".into(), vec![]).static_set("ext").len(pick(4, 5)).alarm(alarm).unit(),
             ]
@@ -357,6 +365,9 @@ pub fn units(prop: &str, tier: Tier) -> Option<Vec<Unit>> {
             ] {
                 v.push(class(&format!("k01-{}", kind.name()), &k, pick(3, 3)).kind(kind).alarm(alarm).unit());
                 v.push(class(&format!("kext-{}", kind.name()), &ke, pick(3, 3)).kind(kind).alarm(alarm).unit());
+            }
+            for kind in [KindId::Stream, KindId::Mapped, KindId::Io, KindId::WithContext] {
+                v.push(class(&format!("k01-{}-through-clone", kind.name()), &k, 3).kind(kind).alarm(alarm).clone_mode().unit());
             }
             // &[T; N]: all inputs of length exactly N
             let arr_inputs: Vec<Vec<Tok>> = en::inputs(&ABC, 3).into_iter().filter(|t| t.len() == 3).collect();
@@ -429,6 +440,22 @@ pub fn units(prop: &str, tier: Tier) -> Option<Vec<Unit>> {
                 .probes(NOPROBE)
                 .pairs(PairMode::Exact)
                 .unit(),
+                e1("kmemo-pairs-through-clone", format!("every Kmemo grammar with <= {} nodes x every non-empty subset of nodes memoized and built through Clone at every node, vs the plain grammar", pick(4, 5)), {
+                    let gs = en::k_memo().upto(pick(4, 5));
+                    let mut out = vec![];
+                    for g in &gs {
+                        let n = g.size() as u32;
+                        for mask in 1..(1u32 << n) {
+                            out.push(g.clone());
+                            out.push(en::decorate(g, mask, &wrap_memo));
+                        }
+                    }
+                    out
+                })
+                .probes(NOPROBE)
+                .pairs(PairMode::Exact)
+                .clone_mode()
+                .unit(),
                 e1("memoized-statically-typed", "statically typed parsers: every Kmemo grammar (<= 3 nodes) and Kcore grammar (<= 2 nodes) x every non-empty subset of nodes memoized (nested, adjacent and zero-sized placements share addresses only in this form); compared with the model, in which memoized() is the identity".into(), vec![])
                     .static_set("memo")
                     .len(pick(4, 5))
@@ -491,6 +518,7 @@ pub fn units(prop: &str, tier: Tier) -> Option<Vec<Unit>> {
             let alarm = ACC | VAL | CXO | PSP | PEX | CHK | PAN;
             vec![
                 class("kctx", &en::k_ctx(), pick(4, 4)).len(pick(4, 5)).cfg(CfgId::RichCx).probes(CTX).alarm(alarm).unit(),
+                class("kctx-through-clone", &en::k_ctx(), pick(3, 4)).cfg(CfgId::RichCx).probes(CTX).alarm(alarm).clone_mode().unit(),
                 e1("kctx-recursion", format!("guarded recursive bodies (<= {} nodes) over context providers and consumers (with_ctx, map_ctx, then_with_ctx, ignore_with_ctx, just from ctx, repeated at_most from ctx)", pick(5, 6)), en::k_ctx_rec(pick(5, 6)))
                     .len(pick(4, 5))
                     .cfg(CfgId::RichCx)
@@ -525,6 +553,7 @@ pub fn units(prop: &str, tier: Tier) -> Option<Vec<Unit>> {
                     .unit(),
                 class("kext-label-content", &en::k_ext(), pick(3, 4)).alarm(ACC | VAL | PSP | PEX | PCX | EMC | EMI).unit(),
                 class("klabel-deep-content", &en::k_label(), pick(5, 6)).alarm(ACC | VAL | PSP | PEX | PCX | EMC | EMI).unit(),
+                class("klabel-through-clone", &en::k_label(), pick(4, 5)).alarm(ACC | VAL | PSP | PEX | PCX | EMC | EMI).clone_mode().unit(),
                 class("klabelctx-deep-content", &en::k_labelctx(), pick(7, 8)).alarm(ACC | VAL | PSP | PEX | PCX | EMC | EMI).unit(),
                 e1("kmaperr-deep-content", format!("every Kmaperr grammar (map_err / try_map / or_not / labelled.as_context over then / or) with <= {} nodes that contains map_err", pick(7, 8)), en::k_maperr().upto(pick(7, 8)).into_iter().filter(|g| g.any_node(&|x| matches!(x, MapErr(_)))).collect())
                     .alpha(&['a', 'b'], pick(3, 4))
@@ -536,6 +565,7 @@ pub fn units(prop: &str, tier: Tier) -> Option<Vec<Unit>> {
             let alarm = STO | FIN;
             vec![
                 class("kstate-str", &en::k_state(), pick(3, 4)).cfg(CfgId::RichSt).probes(STATE).alarm(alarm).unit(),
+                class("kstate-str-through-clone", &en::k_state(), 3).cfg(CfgId::RichSt).probes(STATE).alarm(alarm).clone_mode().unit(),
                 class("kstate-slice", &en::k_state(), pick(3, 3)).kind(KindId::Slice).cfg(CfgId::RichSt).probes(STATE).alarm(alarm).unit(),
                 class("kstate-stream", &en::k_state(), pick(3, 3)).kind(KindId::Stream).cfg(CfgId::RichSt).probes(STATE).alarm(alarm).unit(),
                 // every InputRef operation (next / peek / skip / save / rewind / parse / check) with an inspector snapshot after each step
@@ -553,6 +583,9 @@ pub fn units(prop: &str, tier: Tier) -> Option<Vec<Unit>> {
                     v.push(rec_unit("leftrec", tier));
                     v.push(Unit::Custom { name: "pull-budgets".into(), run: Box::new(move |cx| eng_inputs::run("pull-budgets", tier, cx)) });
                     v.push(Unit::Custom { name: "text-totality".into(), run: Box::new(move |cx| eng_text::run_totality("text-totality", if tier == Tier::Quick { 4 } else { 5 }, cx)) });
+                }
+                if n == "rich" {
+                    v.push(class("ktot-rich-through-clone", &en::k_tot(), pick(4, 5)).alpha(&['a', 'b'], 3).cfg(c).probes(NOPROBE).alarm(alarm).clone_mode().unit());
                 }
                 v.push(class(&format!("ktot-{n}"), &en::k_tot(), pick(5, 6)).alpha(&['a', 'b'], pick(3, 4)).cfg(c).probes(NOPROBE).alarm(alarm).unit());
             }
